@@ -83,8 +83,8 @@ static std::string ShowFilter(const RF & f)
    default: return "(" + ShowFilter(f.kids[0]) + " OR " + ShowFilter(f.kids[1]) + ")";
    }
 }
-static const char * kNames[] = {"a", "b", "c", "x", "y", "zz", "ab", "a*", "q?", "(p)", "1,2", "[k]", "a.b", "<3>", "~a", "7", "12", "p+q"};
-static const int kNumNames = 18, kNumPlain = 7;
+static const char * kNames[] = {"a", "b", "c", "x", "y", "zz", "ab", "a*", "q?", "(p)", "1,2", "[k]", "a.b", "<3>", "~a", "7", "12", "p+q", "a\\", "a\\zz", "b\\c", "a\\"};   // the last four hold a backslash: a\ a\zz b\c
+static const int kNumNames = 22, kNumPlain = 7;
 static std::string PickName() { return P(4, 5) ? kNames[R(kNumPlain)] : kNames[kNumPlain + R(kNumNames - kNumPlain)]; }
 static RF GenFilter(int depth = 0)
 {
@@ -169,6 +169,17 @@ static const std::string & PickMalformed() { return gMalformed[R((uint32)gMalfor
 static std::string NodeClauseForm(const std::string & t, bool litBias)
 {
    const std::string u = PickName(), v = PickName();
+   const size_t bs = t.find('\\');
+   if (bs != std::string::npos && R(2)) { // an escaped backslash directly in front of a live metacharacter: the clause is no plain literal although a backslash precedes the metacharacter
+      const std::string pre = EscLit(t.substr(0, bs + 1)), rest = t.substr(bs + 1);
+      switch (R(5)) {
+      case 0: return pre + "*";
+      case 1: return rest.empty() ? pre + "*" : pre + std::string(rest.size(), '?');
+      case 2: if (rest.empty()) return R(2) ? pre + "," + EscLit(u, false) : pre + "," + EscLit(u, false) + "," + EscLit(v, false); return pre + "*";
+      case 3: return pre + "(" + EscLit(rest, false) + "|" + EscLit(u, false) + ")";
+      default: return rest.empty() ? EscLit(u) + "," + pre + "," + EscLit(v, false) : pre + "?*";
+      }
+   }
    int form = litBias ? (P(17, 20) ? (R(5) < 2 ? 10 : R(2)) : (int)R(17)) : (int)R(17);
    switch (form) {
    case 0: return EscLit(t);
@@ -181,7 +192,7 @@ static std::string NodeClauseForm(const std::string & t, bool litBias)
    case 7: if (t[0] >= 'a' && t[0] <= 'x') return std::string("[") + t[0] + "-" + (char)(t[0] + 2) + "]" + EscLit(t.substr(1), false); if (t[0] >= '0' && t[0] <= '7') return std::string("[") + t[0] + "-" + (char)(t[0] + 2) + "]" + EscLit(t.substr(1), false); return "?*";
    case 8: return "(" + EscLit(t, false) + "|" + EscLit(u, false) + ")";
    case 9: if (t.size() >= 2) return EscLit(t.substr(0, 1)) + "(" + EscLit(t.substr(1), false) + "|" + EscLit(u, false) + "|)"; return "(" + EscLit(u, false) + "|" + EscLit(t, false) + "|zz)";
-   case 10: { std::vector<std::string> l; l.push_back(t); l.push_back(u); if (R(2)) l.push_back(v); if (R(2)) std::swap(l[0], l[l.size() - 1]); std::string s; for (size_t i = 0; i < l.size(); i++) { if (i) s += ","; s += EscLit(l[i], i == 0); } return s; }
+   case 10: { std::vector<std::string> l; l.push_back(t); if (R(15) == 0) l.push_back("a\\"); l.push_back(u); if (R(2)) l.push_back(v); if (R(2)) std::swap(l[0], l[l.size() - 1]); std::string s; for (size_t i = 0; i < l.size(); i++) { if (i) s += ","; s += EscLit(l[i], i == 0); } return s; }
    case 11: return EscLit(u) + "," + EscLit(t.substr(0, 1), false) + "*";
    case 12: return "~" + EscLit(R(3) ? u : t);
    case 13: return "~(" + EscLit(u, false) + "|" + EscLit(R(3) ? v : t, false) + ")";
@@ -307,17 +318,19 @@ struct Sess {
    std::string root, host, sid;
    bool self, g2n, n2g;            // model of the routing flags
    bool hasKeys, hasFilters;       // model of the !SnKy / !SnFl parameters
-   std::vector<Pat> routeKeys;     // default route (patterns with their filters resolved)
+   std::vector<Pat> routeKeys;     // the !SnKy parameter: the patterns last set (their own hasFilter/filter members are not used)
+   std::vector<std::pair<bool, RF> > routeFilters;   // the !SnFl parameter: the filter Messages last set (first = false: an empty Message, i.e. no filter)
+   bool filtersReplacedAlone;      // the filters in force came in a SETPARAMETERS without keys, after the keys
    size_t seen;                    // receive-queue entries already examined
    std::set<std::string> rel;      // relative paths this session was told to create (commands model)
-   Sess() : kind(0), c(NULL), t(NULL), d(NULL), self(false), g2n(true), n2g(true), hasKeys(false), hasFilters(false), seen(0) {}
+   Sess() : kind(0), c(NULL), t(NULL), d(NULL), self(false), g2n(true), n2g(true), hasKeys(false), hasFilters(false), filtersReplacedAlone(false), seen(0) {}
 };
 struct Sent {
    int id; int sender; int mode;                 // mode 0 own keys, 1 default route, 2 broadcast
    std::vector<char> expect;                     // per session: 0 no, 1 yes, 2 unspecified (filter count differs from key count)
    std::vector<char> consp;                      // per session: owns a node every clause of which is matched by SOME pattern although no pattern matches it
-   Message expectMsg; bool forged; bool senderSelf; std::string desc;   // expectMsg: the Message minus its `session` field; forged: it was sent with one; senderSelf: the sender's reflect-to-self flag when queued
-   Sent() : id(0), sender(0), mode(0), forged(false), senderSelf(false) {}
+   Message expectMsg; bool forged; bool senderSelf; bool listBs; std::string desc;   // listBs: a pattern in force holds a directly looked-up list with a backslash alternative   // expectMsg: the Message minus its `session` field; forged: it was sent with one; senderSelf: the sender's reflect-to-self flag when queued
+   Sent() : id(0), sender(0), mode(0), forged(false), senderSelf(false), listBs(false) {}
 };
 static const char * kModes[] = {"keys", "default_route", "broadcast"};
 
@@ -487,6 +500,12 @@ struct World {
       if (filterMode == 1) for (size_t i = 0; i < pats.size(); i++) if (pats.size() == 1 || R(3)) { pats[i].hasFilter = true; pats[i].filter = GenFilter(); }
       if (filterMode == 2) { if (pats.size() < 2) filterMode = 0; else { size_t nf = 1 + R((uint32)pats.size() - 1); for (size_t i = 0; i < nf; i++) shortFilters.push_back(GenFilter()); } }
    }
+   // an escaped backslash directly followed by a live metacharacter (a\\,b  a\\*): the clause is no plain literal although its last backslash precedes the metacharacter
+   static bool HasEscapedBackslashBeforeLiveMeta(const std::string & c) { for (size_t i = 0; i + 2 < c.size() + 0; i++) { if (c[i] != '\\') continue; if (c[i + 1] == '\\') { if (i + 2 < c.size() && strchr("*?,([|", c[i + 2])) return true; i++; } else i++; } return false; }
+   // a comma list of literal names (direct lookup) one alternative of which holds an escaped backslash: see regress case 10
+   static bool HasListAltWithBackslash(const std::vector<Pat> & pats) { for (size_t i = 0; i < pats.size(); i++) if (!pats[i].malformed) for (size_t j = 0; j < pats[i].cl.size(); j++) { const std::string & c = pats[i].cl[j]; if (!IsLitOrList(c) || c.find("\\\\") == std::string::npos) continue; bool esc = false; for (size_t q = 0; q < c.size(); q++) { if (esc) { esc = false; continue; } if (c[q] == '\\') { esc = true; continue; } if (c[q] == ',') return true; } } return false; }
+   static const char * ListBsPrefix(const std::vector<Pat> & pats) { return HasListAltWithBackslash(pats) ? "list_alternative_with_escaped_backslash|" : ""; }
+   static void NoteClauses(const std::vector<Pat> & pats) { for (size_t i = 0; i < pats.size(); i++) if (!pats[i].malformed) for (size_t j = 0; j < pats[i].cl.size(); j++) if (HasEscapedBackslashBeforeLiveMeta(pats[i].cl[j])) { vh::stat("clauses_with_escaped_backslash_before_live_metachar"); bool only = true; { const std::string & c = pats[i].cl[j]; bool esc = false; int live = 0; for (size_t q = 0; q < c.size(); q++) { if (esc) { esc = false; continue; } if (c[q] == '\\') { esc = true; continue; } if (strchr("*?([|", c[q])) live++; } only = live <= 1; } if (only) vh::stat("clauses_with_escaped_backslash_before_sole_live_metachar"); } }
    // 0 = no malformed pattern, 1 = malformed but none before a valid one, 2 = a malformed pattern precedes a valid one
    static int MalformedShape(const std::vector<Pat> & pats) { int r = 0; bool seenBad = false; for (size_t i = 0; i < pats.size(); i++) { if (pats[i].malformed) { seenBad = true; if (!r) r = 1; } else if (seenBad) r = 2; } return r; }
    static void AddPatSetTo(Message & m, const std::vector<Pat> & pats, int filterMode, const std::vector<RF> & shortFilters)
@@ -527,7 +546,7 @@ struct World {
    // ---- one user Message from `sender`, queued (not settled)
    void SendUser(int sender, std::vector<Sent> & burst, bool litBias)
    {
-      Sess & S = ss[sender]; Sent st; st.id = ++nextId; st.sender = sender; st.senderSelf = S.self;
+      Sess & S = ss[sender]; Sent st; st.id = ++nextId; st.sender = sender; st.senderSelf = S.self; std::string routeShown;
       std::vector<Pat> pats; int filterMode = 0; std::vector<RF> shortFilters;
       GenPatSet(pats, filterMode, shortFilters, litBias, 0);
       if (S.hasKeys && R(5) < 2) { pats.clear(); filterMode = 0; shortFilters.clear(); }   // default routes are used while they exist
@@ -570,12 +589,22 @@ struct World {
          bool anyFast = false, anySlow = false; for (size_t l = 0; l < 8; l++) { bool have = false, fast = true; for (size_t i = 0; i < pats.size(); i++) if (!pats[i].malformed && pats[i].cl.size() > l) { have = true; if (!IsLitOrList(pats[i].cl[l])) fast = false; } if (have) { if (fast) anyFast = true; else anySlow = true; } }
          if (anyFast) vh::stat("msgs_with_a_direct_lookup_level"); if (anySlow) vh::stat("msgs_with_an_iterated_level");
          if (filterMode) vh::stat("msgs_with_filters");
+         NoteClauses(pats); st.listBs = HasListAltWithBackslash(pats);
          { const int ms = MalformedShape(pats); if (ms) { vh::stat("msgs_with_malformed_pattern"); if (ms == 2) vh::stat("msgs_with_malformed_pattern_before_valid"); else if (pats.size() > 1) vh::stat("msgs_with_malformed_pattern_last"); else vh::stat("msgs_with_malformed_pattern_alone"); bool anyExp = false; for (size_t r = 0; r < ss.size(); r++) if (st.expect[r] == 1) anyExp = true; if (ms == 2 && anyExp) vh::stat("msgs_with_malformed_pattern_before_valid_and_receivers"); } }
          bool anyC = false; for (size_t r = 0; r < ss.size(); r++) if (st.consp[r] && st.expect[r] == 0 && (int)r != sender) { vh::stat("conspiracy_candidate_receivers"); anyC = true; } if (anyC) vh::stat("msgs_with_conspiracy_candidate");
       }
-      else if (S.hasKeys) { st.mode = 1; RouteExpect(sender, S.routeKeys, st.expect, st.consp); vh::stat("default_route_messages"); if (MalformedShape(S.routeKeys) == 2) { vh::stat("default_route_messages_through_malformed_before_valid"); for (size_t r = 0; r < ss.size(); r++) if (st.expect[r] == 1) { vh::stat("default_route_deliveries_expected_behind_malformed"); break; } } }
+      else if (S.hasKeys) { // the default route = the keys last set paired by position with the filters last set (the two parameters may have been set by different commands)
+         st.mode = 1; std::vector<Pat> a, b; const bool open = EffectiveRoute(S, a, b);
+         RouteExpect(sender, a, st.expect, st.consp);
+         if (open) { std::vector<char> eb, cb; RouteExpect(sender, b, eb, cb); for (size_t r = 0; r < ss.size(); r++) if (st.expect[r] != eb[r]) { st.expect[r] = 2; vh::stat("unspecified_fewer_filters_than_keys_receivers"); } }
+         routeShown = ShowPats(a, 0, shortFilters) + (open ? " (fewer filters than keys)" : "");
+         vh::stat("default_route_messages"); if (S.hasFilters) vh::stat("default_route_messages_with_filters");
+         if (S.filtersReplacedAlone) { vh::stat("default_route_messages_after_filter_replaced_without_keys"); for (size_t r = 0; r < ss.size(); r++) if (st.expect[r] == 1) { vh::stat("default_route_deliveries_expected_after_filter_replaced_without_keys"); break; } }
+         if (MalformedShape(S.routeKeys) == 2) { vh::stat("default_route_messages_through_malformed_before_valid"); for (size_t r = 0; r < ss.size(); r++) if (st.expect[r] == 1) { vh::stat("default_route_deliveries_expected_behind_malformed"); break; } }
+         NoteClauses(S.routeKeys); st.listBs = HasListAltWithBackslash(S.routeKeys);
+      }
       else { st.mode = 2; st.expect.assign(ss.size(), 0); st.consp.assign(ss.size(), 0); for (size_t r = 0; r < ss.size(); r++) st.expect[r] = (S.g2n && (((int)r == sender) ? S.self : ss[r].n2g)) ? 1 : 0; vh::stat("broadcast_messages"); if (!S.g2n) vh::stat("broadcast_messages_with_g2n_off"); }
-      st.desc = vh::fmt("id %d from #%d (%s%s)%s", st.id, sender, kModes[st.mode], S.self ? ", sender reflects to self" : "", forge >= 0 ? " forged-session-field" : "") + (st.mode == 1 ? ShowPats(S.routeKeys, 0, shortFilters) : ShowPats(pats, filterMode, shortFilters)) + (emptyKey ? " [](empty key)" : "");
+      st.desc = vh::fmt("id %d from #%d (%s%s)%s", st.id, sender, kModes[st.mode], S.self ? ", sender reflects to self" : "", forge >= 0 ? " forged-session-field" : "") + (st.mode == 1 ? routeShown : ShowPats(pats, filterMode, shortFilters)) + (emptyKey ? " [](empty key)" : "");
       log.push_back(st.desc);
       S.c->Send(um); burst.push_back(st); vh::stat("routed_messages");
    }
@@ -588,29 +617,56 @@ struct World {
       else { MessageRef m = GetMessageFromPool(PR_COMMAND_REMOVEPARAMETERS); (void)m()->AddString(PR_NAME_KEYS, PR_NAME_REFLECT_TO_SELF); s.c->Send(m); }
       s.self = on; log.push_back(vh::fmt("#%d %s !Self", si, on ? "SET" : "REMOVE")); vh::stat(on ? "param_self_set" : "param_self_removed");
    }
+   // reading a: filter i belongs to key i, the last filter also to every later key (what PutPathsFromMessage does); reading b: later keys have
+   // no filter.  Returns true when the readings differ in form (fewer filters than keys): receivers on which they differ are left unjudged.
+   static bool EffectiveRoute(const Sess & S, std::vector<Pat> & a, std::vector<Pat> & b)
+   {
+      a = S.routeKeys; b = S.routeKeys; const size_t nf = S.hasFilters ? S.routeFilters.size() : 0;
+      for (size_t i = 0; i < a.size(); i++) {
+         a[i].hasFilter = b[i].hasFilter = false;
+         if (i < nf) { a[i].hasFilter = b[i].hasFilter = S.routeFilters[i].first; a[i].filter = b[i].filter = S.routeFilters[i].second; }
+         else if (nf) { a[i].hasFilter = S.routeFilters[nf - 1].first; a[i].filter = S.routeFilters[nf - 1].second; }
+      }
+      return nf > 0 && nf < a.size() && S.routeFilters[nf - 1].first;
+   }
+   static std::string ShowRouteFilters(const std::vector<std::pair<bool, RF> > & f) { std::string s; for (size_t i = 0; i < f.size(); i++) s += f[i].first ? "{" + ShowFilter(f[i].second) + "}" : std::string("{}"); return s; }
+   // SETPARAMETERS carrying the route's keys, its filters, or both; the two parameters are independent table entries
    void SetRoute(int si, bool litBias)
    {
-      Sess & s = ss[si]; std::vector<Pat> pats; int filterMode = 0; std::vector<RF> shortFilters;
-      GenPatSet(pats, filterMode, shortFilters, litBias, 1);
-      if (filterMode == 2) filterMode = 0;
-      if (filterMode == 0 && s.hasFilters) filterMode = 1;     // a !SnFl parameter left over from earlier would pair with the new keys: replace it (one, possibly empty, filter per key)
-      MessageRef m = GetMessageFromPool(PR_COMMAND_SETPARAMETERS); AddPatSetTo(*m(), pats, filterMode, shortFilters); s.c->Send(m);
-      s.hasKeys = true; if (filterMode) s.hasFilters = true; s.routeKeys = pats;
-      log.push_back(vh::fmt("#%d SET default route", si) + ShowPats(pats, filterMode, shortFilters)); vh::stat("param_default_route_set");
-      { const int ms = MalformedShape(pats); if (ms) vh::stat("default_routes_with_malformed_pattern"); if (ms == 2) vh::stat("default_routes_with_malformed_pattern_before_valid"); }
+      Sess & s = ss[si]; const uint32 v = R(10); const bool withKeys = (v < 7) || !s.hasKeys, withFilters = (v >= 4); // 0-3 keys only, 4-6 both, 7-9 filters only (keys only/both while there are no keys yet: 1 in 10 still filters only)
+      const bool filtersOnlyNoKeys = (!s.hasKeys && R(10) == 0);
+      MessageRef m = GetMessageFromPool(PR_COMMAND_SETPARAMETERS); std::string l = vh::fmt("#%d SETPARAMETERS", si);
+      if (withKeys && !filtersOnlyNoKeys) {
+         std::vector<Pat> pats; int filterMode = 0; std::vector<RF> shortFilters; GenPatSet(pats, filterMode, shortFilters, litBias, 1);
+         std::set<std::string> seenCanon; std::vector<Pat> keep; for (size_t i = 0; i < pats.size(); i++) if (seenCanon.insert(pats[i].Canon()).second) { pats[i].hasFilter = false; keep.push_back(pats[i]); }   // one canonical pattern twice with different filters: unspecified which applies
+         for (size_t i = 0; i < keep.size(); i++) (void)m()->AddString(PR_NAME_KEYS, keep[i].text.c_str());
+         s.hasKeys = true; s.routeKeys = keep; s.filtersReplacedAlone = false; l += " !SnKy" + ShowPats(keep, 0, shortFilters); vh::stat("param_default_route_set");
+         { const int ms = MalformedShape(keep); if (ms) vh::stat("default_routes_with_malformed_pattern"); if (ms == 2) vh::stat("default_routes_with_malformed_pattern_before_valid"); }
+         if (!withFilters && s.hasFilters) vh::stat("default_route_keys_replaced_keeping_filters");
+      }
+      if (withFilters || filtersOnlyNoKeys) {
+         const size_t nk = s.routeKeys.size(); size_t nf = (nk && R(4)) ? nk : 1 + R(3); if (nk > 1 && R(6) == 0) nf = 1 + R((uint32)nk - 1);
+         std::vector<std::pair<bool, RF> > f; for (size_t i = 0; i < nf; i++) { const bool real = (nf == 1) || R(4) != 0; f.push_back(std::make_pair(real, real ? GenFilter() : RF())); }
+         for (size_t i = 0; i < nf; i++) (void)m()->AddMessage(PR_NAME_FILTERS, f[i].first ? ArchiveFilter(f[i].second) : GetMessageFromPool());
+         const bool alone = !(withKeys && !filtersOnlyNoKeys);
+         if (alone && s.hasKeys) { s.filtersReplacedAlone = true; vh::stat("default_route_filter_replaced_without_keys"); }
+         if (alone && !s.hasKeys) vh::stat("default_route_filters_set_without_any_keys");
+         s.hasFilters = true; s.routeFilters = f; l += " !SnFl " + ShowRouteFilters(f); vh::stat("param_default_route_filters_set");
+      }
+      s.c->Send(m); log.push_back(l);
    }
    void RemoveRoute(int si)
    {
       Sess & s = ss[si]; MessageRef m = GetMessageFromPool(PR_COMMAND_REMOVEPARAMETERS); const int how = R(3);
       if (how == 0) { (void)m()->AddString(PR_NAME_KEYS, PR_NAME_KEYS); }
-      else if (how == 1) { (void)m()->AddString(PR_NAME_KEYS, PR_NAME_KEYS); (void)m()->AddString(PR_NAME_KEYS, PR_NAME_FILTERS); s.hasFilters = false; }
-      else { (void)m()->AddString(PR_NAME_KEYS, "!Sn*"); s.hasFilters = false; }
-      s.c->Send(m); s.hasKeys = false; s.routeKeys.clear(); log.push_back(vh::fmt("#%d REMOVE default route (%d)", si, how)); vh::stat("param_default_route_removed");
+      else if (how == 1) { (void)m()->AddString(PR_NAME_KEYS, PR_NAME_KEYS); (void)m()->AddString(PR_NAME_KEYS, PR_NAME_FILTERS); s.hasFilters = false; s.routeFilters.clear(); }
+      else { (void)m()->AddString(PR_NAME_KEYS, "!Sn*"); s.hasFilters = false; s.routeFilters.clear(); }
+      s.c->Send(m); s.hasKeys = false; s.routeKeys.clear(); s.filtersReplacedAlone = false; log.push_back(vh::fmt("#%d REMOVE default route (%d)", si, how)); vh::stat("param_default_route_removed");
    }
    void RemoveRouteFilters(int si)   // the route's keys stay, its filters go
    {
       Sess & s = ss[si]; MessageRef m = GetMessageFromPool(PR_COMMAND_REMOVEPARAMETERS); (void)m()->AddString(PR_NAME_KEYS, PR_NAME_FILTERS); s.c->Send(m);
-      s.hasFilters = false; for (size_t i = 0; i < s.routeKeys.size(); i++) s.routeKeys[i].hasFilter = false;
+      s.hasFilters = false; s.routeFilters.clear(); s.filtersReplacedAlone = false;
       log.push_back(vh::fmt("#%d REMOVE !SnFl", si)); vh::stat("param_default_route_filters_removed");
    }
    // the two gateway flags are "set by default" but are no entries of the parameter table until a client sets them, and
@@ -657,14 +713,45 @@ struct World {
             if (cnt[i] > 1) { Fail(std::string("route|duplicate|") + kModes[st.mode], who + vh::fmt(" arrived %d times", cnt[i])); break; }
             if (st.expect[r] == 2) continue;
             if (st.expect[r] == 1) vh::stat("deliveries_expected");
-            if (st.expect[r] == 1 && cnt[i] == 0) Fail(std::string("route|missing|") + kModes[st.mode], who + " did not arrive");
+            if (st.expect[r] == 1 && cnt[i] == 0) Fail(std::string(st.listBs ? "list_alternative_with_escaped_backslash|" : "") + "route|missing|" + kModes[st.mode], who + " did not arrive");
             else if (st.expect[r] == 0 && cnt[i] == 1) {
                const char * why = ((int)r == st.sender && !st.senderSelf) ? "|to_sender_without_reflect_to_self" : (st.consp[r] ? "|conspiracy" : (Rv.kind == 2 ? "|to_nodeless_session" : ""));
-               Fail(std::string("route|unexpected|") + kModes[st.mode] + why, who + " arrived although nothing selects this receiver");
+               Fail(std::string(st.listBs ? "list_alternative_with_escaped_backslash|" : "") + "route|unexpected|" + kModes[st.mode] + why, who + " arrived although nothing selects this receiver");
             }
          }
       }
       for (size_t i = 0; i < burst.size(); i++) { int yes = 0, no = 0; for (size_t r = 0; r < ss.size(); r++) { if (burst[i].expect[r] == 1) yes++; else if (burst[i].expect[r] == 0 && ss[r].kind != 2 && (int)r != burst[i].sender) no++; } if (yes && no && burst[i].mode != 2) interesting++; if (!yes) vh::stat("msgs_selecting_nobody"); }
+   }
+
+   // ---- GETDATA with a random pattern set (the same PutPathsFromMessage + traversal, seen through a public command) against the reference
+   void GetDataCheck(bool litBias)
+   {
+      std::vector<Pat> pats; int filterMode = 0; std::vector<RF> shortFilters; GenPatSet(pats, filterMode, shortFilters, litBias, 1); if (filterMode == 2) { filterMode = 0; shortFilters.clear(); }
+      Client * o = ss[obs].c; o->mirror.clear(); MessageRef gd = GetMessageFromPool(PR_COMMAND_GETDATA); AddPatSetTo(*gd(), pats, filterMode, shortFilters); o->Send(gd); B.Settle();
+      std::set<std::string> ref, have; for (size_t j = 0; j < tree.nodes.size(); j++) for (size_t i = 0; i < pats.size(); i++) if (PatMatchesPath(pats[i], tree.nodes[j].segs) && (!pats[i].hasFilter || RefEval(pats[i].filter, tree.nodes[j].payload, tree.nodes[j].segs.back()))) { ref.insert(tree.nodes[j].path); break; }
+      for (std::map<std::string, std::string>::const_iterator it = o->mirror.begin(); it != o->mirror.end(); ++it) have.insert(it->first);
+      vh::stat("getdata_checks"); vh::stat("getdata_nodes_expected", (long)ref.size()); NoteClauses(pats); log.push_back("GETDATA" + ShowPats(pats, filterMode, shortFilters));
+      if (ref != have) { std::string d = "GETDATA" + ShowPats(pats, filterMode, shortFilters) + " |"; for (std::set<std::string>::const_iterator i = ref.begin(); i != ref.end(); ++i) if (!have.count(*i)) d += " missing:" + *i; for (std::set<std::string>::const_iterator i = have.begin(); i != have.end(); ++i) if (!ref.count(*i)) d += " extra:" + *i; Fail(std::string(ListBsPrefix(pats)) + "getdata|result_differs_from_reference", d); }
+   }
+   // ---- one subscription: the initial values and the notice for a later update of a foreign node, against the reference
+   void SubscriptionProbe(bool litBias)
+   {
+      std::vector<int> cl; for (size_t i = 0; i < ss.size(); i++) if (ss[i].kind == 0 && (int)i != obs) cl.push_back((int)i); if (cl.size() < 2) return;
+      const int xi = cl[R((uint32)cl.size())]; Sess & X = ss[xi]; Pat p; do { p = GenPat(litBias); } while (p.cl.size() < 2);
+      X.c->mirror.clear(); MessageRef sp = GetMessageFromPool(PR_COMMAND_SETPARAMETERS); (void)sp()->AddBool((std::string("SUBSCRIBE:") + p.text).c_str(), true); X.c->Send(sp); B.Settle();
+      std::set<std::string> ref, have; std::vector<size_t> cand, hits;
+      for (size_t j = 0; j < tree.nodes.size(); j++) { const TNode & n = tree.nodes[j]; if (rb::Under(n.path, X.root)) continue; const bool m = PatMatchesPath(p, n.segs); if (m) ref.insert(n.path); if (n.owner >= 0 && ss[n.owner].kind == 0 && n.segs.size() >= 3) { cand.push_back(j); if (m) hits.push_back(j); } }
+      for (std::map<std::string, std::string>::const_iterator it = X.c->mirror.begin(); it != X.c->mirror.end(); ++it) if (!rb::Under(it->first, X.root)) have.insert(it->first);
+      std::vector<Pat> one(1, p); NoteClauses(one); vh::stat("subscription_probes"); vh::stat("subscription_initial_nodes_expected", (long)ref.size()); log.push_back(vh::fmt("#%d SUBSCRIBE:%s", xi, p.text.c_str()));
+      if (ref != have) { std::string d = vh::fmt("#%d SUBSCRIBE:%s |", xi, p.text.c_str()); for (std::set<std::string>::const_iterator i = ref.begin(); i != ref.end(); ++i) if (!have.count(*i)) d += " missing:" + *i; for (std::set<std::string>::const_iterator i = have.begin(); i != have.end(); ++i) if (!ref.count(*i)) d += " extra:" + *i; Fail(std::string(ListBsPrefix(one)) + "subscription|initial_values_differ_from_reference", d); }
+      else if (!cand.empty()) { // a foreign node gets a new payload: the subscriber is told exactly when the pattern matches it
+         const size_t j = (!hits.empty() && R(3)) ? hits[R((uint32)hits.size())] : cand[R((uint32)cand.size())]; TNode & n = tree.nodes[j]; const bool m = PatMatchesPath(p, n.segs);
+         MessageRef pl = GenPayload(); (void)pl()->AddInt32("upd", ++nextId); MessageRef sd = GetMessageFromPool(PR_COMMAND_SETDATA); (void)sd()->AddMessage(Join(n.segs, 2).c_str(), pl); ss[n.owner].c->Send(sd); B.Settle();
+         n.payload = *pl(); std::map<std::string, std::string>::const_iterator it = X.c->mirror.find(n.path); const bool told = (it != X.c->mirror.end() && it->second == rb::FlatBytes(*pl()));
+         vh::stat(m ? "subscription_updates_expected" : "subscription_updates_not_expected"); log.push_back(vh::fmt("#%d SETDATA %s (update)", n.owner, Join(n.segs, 2).c_str()));
+         if (told != m) Fail(std::string(ListBsPrefix(one)) + "subscription|update_notice_differs_from_reference", vh::fmt("#%d SUBSCRIBE:%s; node %s got a new payload: subscriber %s, the pattern %s it", xi, p.text.c_str(), n.path.c_str(), told ? "was told" : "was not told", m ? "matches" : "does not match"));
+      }
+      MessageRef rp = GetMessageFromPool(PR_COMMAND_REMOVEPARAMETERS); (void)rp()->AddString(PR_NAME_KEYS, "SUBSCRIBE:*"); X.c->Send(rp); B.Settle(); X.c->mirror.clear();
    }
 
    // ---- at the end: the parameter table as the server reports it against the model (catches a model that drifted from the commands)
@@ -679,6 +766,13 @@ struct World {
          vh::stat("parameter_tables_checked");
          if (self != s.self || g2n != s.g2n || n2g != s.n2g || keys != s.hasKeys || fl != s.hasFilters)
             Fail("params|reported_table_differs_from_commands", vh::fmt("#%zu reports !Self=%d !G2N=%d !N2G=%d !SnKy=%d !SnFl=%d, the commands sent give %d %d %d %d %d", i, self, g2n, n2g, keys, fl, s.self, s.g2n, s.n2g, s.hasKeys, s.hasFilters));
+         else {
+            std::string diff; const String * ks; uint32 nk = 0; while (p.FindString(PR_NAME_KEYS, nk, &ks).IsOK()) { if (nk >= s.routeKeys.size() || s.routeKeys[nk].text != ks->Cstr()) diff = vh::fmt("!SnKy[%u] is '%s'", nk, ks->Cstr()); nk++; }
+            if (s.hasKeys && nk != s.routeKeys.size()) diff = vh::fmt("!SnKy holds %u strings, %zu were set", nk, s.routeKeys.size());
+            MessageRef fm; uint32 nf = 0; while (p.FindMessage(PR_NAME_FILTERS, nf, fm).IsOK()) { if (nf < s.routeFilters.size()) { MessageRef want = s.routeFilters[nf].first ? ArchiveFilter(s.routeFilters[nf].second) : GetMessageFromPool(); if (!(*want() == *fm())) diff = vh::fmt("!SnFl[%u] is not the filter last set", nf); } nf++; }
+            if (s.hasFilters && nf != s.routeFilters.size()) diff = vh::fmt("!SnFl holds %u Messages, %zu were set", nf, s.routeFilters.size());
+            if (!diff.empty()) Fail("params|reported_route_differs_from_commands", vh::fmt("#%zu: %s", i, diff.c_str()));
+         }
       }
    }
 
@@ -716,13 +810,15 @@ struct World {
       if (fastL && !vis.empty()) vh::stat("traversals_with_lookup_level_and_visits");
       if (pats.size() > 1) vh::stat("traversals_with_several_patterns");
       if (MalformedShape(pats)) vh::stat("traversals_with_malformed_pattern");
+      NoteClauses(pats);
       if (vis.empty()) vh::stat("traversals_visiting_nothing");
       // verdicts
       const std::string what = std::string(rooted ? "rooted at " + sp : "from the root") + (useFilters ? ", filters on" : ", filters off") + ":" + ShowPats(pats, filterMode, shortFilters);
       struct D { static std::string Diff(const std::set<std::string> & a, const std::set<std::string> & b, const char * an, const char * bn) { std::string s; for (std::set<std::string>::const_iterator i = a.begin(); i != a.end(); ++i) if (!b.count(*i)) s += std::string(" only-") + an + ":" + *i; for (std::set<std::string>::const_iterator i = b.begin(); i != b.end(); ++i) if (!a.count(*i)) s += std::string(" only-") + bn + ":" + *i; return s; } };
-      if (vis != byPath) Fail("traversal|visited_set_differs_from_MatchesPath_over_all_nodes", what + " |" + D::Diff(vis, byPath, "visited", "MatchesPath"));
-      else if (vis != byNode) Fail("traversal|visited_set_differs_from_MatchesNode_over_all_nodes", what + " |" + D::Diff(vis, byNode, "visited", "MatchesNode"));
-      else if (vis != ref) Fail("traversal|visited_set_differs_from_reference", what + " |" + D::Diff(vis, ref, "visited", "reference"));
+      const std::string pre = ListBsPrefix(pats);
+      if (vis != byPath) Fail(pre + "traversal|visited_set_differs_from_MatchesPath_over_all_nodes", what + " |" + D::Diff(vis, byPath, "visited", "MatchesPath"));
+      else if (vis != byNode) Fail(pre + "traversal|visited_set_differs_from_MatchesNode_over_all_nodes", what + " |" + D::Diff(vis, byNode, "visited", "MatchesNode"));
+      else if (vis != ref) Fail(pre + "traversal|visited_set_differs_from_reference", what + " |" + D::Diff(vis, ref, "visited", "reference"));
       else if (twice) Fail("traversal|node_visited_twice", what + " | " + twiceNode);
       else if ((long)ret != total) Fail("traversal|returned_visit_count", what + vh::fmt(" | returned %u, callback ran %ld times", ret, total));
    }
@@ -764,15 +860,18 @@ static void RunCase(long k, uint64_t cs, long nMsgs, long nTrav)
          W.B.Settle();
       }
       else if (r < 16) { const int si = (int)R((uint32)W.ss.size()); if (R(2) == 0 && W.ss[si].kind == 0 && !W.ss[si].rel.empty()) W.RemoveNode(si); else W.SetNodes(si, 1 + R(2)); W.B.Settle(); W.ReadTree(); for (size_t i = 0; i < W.ss.size(); i++) W.ss[i].seen = W.Queue(W.ss[i]).size(); vh::stat("tree_mutations"); }
+      else if (r < 23) { W.GetDataCheck(litBias); for (size_t i = 0; i < W.ss.size(); i++) W.ss[i].seen = W.Queue(W.ss[i]).size(); }
+      else if (r < 29) { W.SubscriptionProbe(litBias); for (size_t i = 0; i < W.ss.size(); i++) W.ss[i].seen = W.Queue(W.ss[i]).size(); }
       else {
          std::vector<Sent> burst; const int nb = 1 + R(8);
          for (int b = 0; b < nb && sent < nMsgs; b++) {
             const int si = clients[R((uint32)clients.size())];
             const uint32 pc = R(100);   // the sender's own routing parameters may change in-stream: one session's commands are handled in order
             if (pc < 6) W.SetSelf(si, !W.ss[si].self);
-            else if (pc < 14) W.SetRoute(si, litBias);
+            else if (pc < 15) W.SetRoute(si, litBias);
             else if (pc < 19 && W.ss[si].hasKeys) W.RemoveRoute(si);
-            else if (pc < 23 && W.ss[si].hasKeys && W.ss[si].hasFilters) W.RemoveRouteFilters(si);
+            else if (pc < 22 && W.ss[si].hasKeys) W.SetRoute(si, litBias);   // routes that exist get their keys / filters replaced separately
+            else if (pc < 25 && W.ss[si].hasKeys && W.ss[si].hasFilters) W.RemoveRouteFilters(si);
             W.SendUser(si, burst, litBias); sent++;
          }
          W.B.Settle(); W.Verify(burst); vh::stat("bursts");
@@ -927,7 +1026,51 @@ static void Regress()
       r.Route("after REMOVEDATA [b[] [bar]", 0, K("ba?"), W4(0, 0, 0, 1));
       vh::stat("regress_malformed_scenarios", 10);
    }
-   for (uint64_t i = 1; i <= 8; i++) vh::distinct(i);
+   vh::begin_case(8);
+   { // an escaped backslash directly in front of a live metacharacter (seeded change C05-7): a\\,b = "a\" or "b"; a\\* = "a\" followed by anything
+      Rg r(4, "regress|escaped_backslash_before_metachar"); r.Set(1, "b"); r.Set(2, "a\\zz"); r.Set(3, "c");
+      r.Route("literal name", 0, K("b"), W4(0, 1, 0, 0));
+      r.Route("plain comma list", 0, K("b,c"), W4(0, 1, 0, 1));
+      r.Route("plain wildcard", 0, K("a*"), W4(0, 0, 1, 0));
+      r.Route("escaped backslash then comma", 0, K("a\\\\,b"), W4(0, 1, 0, 0));
+      r.Route("escaped backslash then star", 0, K("a\\\\*"), W4(0, 0, 1, 0));
+      r.Route("escaped backslash then question marks", 0, K("a\\\\??"), W4(0, 0, 1, 0));
+      r.Route("escaped backslash as a literal", 0, K("a\\\\zz"), W4(0, 0, 1, 0));
+      r.Set(3, "a\\");
+      r.Route("escaped backslash then star, two matches", 0, K("a\\\\*"), W4(0, 0, 1, 1));
+      vh::stat("regress_escaped_backslash_scenarios", 8);
+   }
+   vh::begin_case(9);
+   { // the route's filters replaced by a SETPARAMETERS without keys (seeded change C05-8): the route = last keys + last filters
+      Rg r(3, "regress|route_filter_replaced_without_keys");
+      for (int i = 1; i <= 2; i++) { MessageRef sd = GetMessageFromPool(PR_COMMAND_SETDATA); MessageRef pl = GetMessageFromPool(1); (void)pl()->AddInt32("v", i); (void)sd()->AddMessage("n", pl); r.c[i]->Send(sd); } r.B.Settle();
+      RF f1; f1.kind = RF::INT32; f1.field = "v"; f1.op = 0; f1.thr = 1; RF f2 = f1; f2.thr = 2;
+      r.Route("no default route (broadcast)", 0, K(), W3(0, 1, 1));
+      MessageRef s1 = GetMessageFromPool(PR_COMMAND_SETPARAMETERS); (void)s1()->AddString(PR_NAME_KEYS, "n"); (void)s1()->AddMessage(PR_NAME_FILTERS, ArchiveFilter(f1)); r.c[0]->Send(s1); r.B.Settle();
+      r.Route("default route n, filter v==1", 0, K(), W3(0, 1, 0));
+      MessageRef s2 = GetMessageFromPool(PR_COMMAND_SETPARAMETERS); (void)s2()->AddMessage(PR_NAME_FILTERS, ArchiveFilter(f2)); r.c[0]->Send(s2); r.B.Settle();
+      r.Route("filter parameter replaced by v==2 (no keys in that command)", 0, K(), W3(0, 0, 1));
+      MessageRef s3 = GetMessageFromPool(PR_COMMAND_SETPARAMETERS); (void)s3()->AddString(PR_NAME_KEYS, "n"); r.c[0]->Send(s3); r.B.Settle();
+      r.Route("keys parameter set again", 0, K(), W3(0, 0, 1));
+      MessageRef s4 = GetMessageFromPool(PR_COMMAND_SETPARAMETERS); (void)s4()->AddMessage(PR_NAME_FILTERS, GetMessageFromPool()); r.c[0]->Send(s4); r.B.Settle();
+      r.Route("filter parameter replaced by an empty Message", 0, K(), W3(0, 1, 1));
+      // filters without any keys ever: no route, broadcast
+      Rg q(3, "regress|route_filter_replaced_without_keys"); q.Set(1, "n");
+      MessageRef s5 = GetMessageFromPool(PR_COMMAND_SETPARAMETERS); (void)s5()->AddMessage(PR_NAME_FILTERS, ArchiveFilter(f1)); q.c[0]->Send(s5); q.B.Settle();
+      q.Route("filters but never any keys: broadcast", 0, K(), W3(0, 1, 1));
+      vh::stat("regress_route_filter_scenarios", 6);
+   }
+   vh::begin_case(10);
+   { // a comma list looked up directly: an alternative holding an escaped backslash must find the node named with that backslash
+     // (found on the unchanged tree while adding the C05-7 clauses: DoTraversalAux strips the escapes while splitting the list and DoDirectChildLookup strips them again)
+      Rg r(4, "regress|list_alternative_with_escaped_backslash"); r.Set(1, "b"); r.Set(2, "a\\"); r.Set(3, "zz");
+      r.Route("control: unique literal", 0, K("a\\\\"), W4(0, 0, 1, 0));
+      r.Route("control: list with a wildcard member (iterated level)", 0, K("a\\\\,z*"), W4(0, 0, 1, 1));
+      r.Route("list of two literal names, the first with a backslash", 0, K("a\\\\,b"), W4(0, 1, 1, 0));
+      r.Route("list of two literal names, the last with a backslash", 0, K("zz,a\\\\"), W4(0, 0, 1, 1));
+      vh::stat("regress_list_backslash_scenarios", 4);
+   }
+   for (uint64_t i = 1; i <= 11; i++) vh::distinct(i);
 }
 
 int main(int argc, char ** argv)
